@@ -12,7 +12,12 @@ addresses forgotten; `Abs h a t` says that the graph below address `a` unfolds t
 * `copy.copy(x)`     → `shallowCopy` : a new first cell, everything below shared (the negative witness)
 * a run mutating its processor: `setattr(obj, name, value)` (`Processor.set`), in-place changes of an
   argument list / dict / array / `detector._memory`                    → `Write.rebind`, `Write.mutate`, `Write.alias`
-* `create_new_processor` / `replace` / `update_processor` = `deepcopy` followed by writes through the copy;
+* the *base object* of a call is everything the user handed to `run_mode`, as `run_mode` ties it together:
+  the `Processor` with its detector, its pipeline AND the running-mode object (`Processor.observation`: the
+  `Observation` with its `Readout`, parameter declarations, table, outputs) — `Processor.__deepcopy__` copies
+  all three; the harness extracts that whole graph (and snapshots the mode object separately)
+* `create_new_processor` / `replace` / `update_processor` = `deepcopy` followed by writes through the copy
+  (`Processor.set` of `detector.*`, `pipeline.*` and `observation.*` keys alike);
   an observation / calibration = a sequence of such runs, each stopped anywhere (a failing run) → `execRuns`
 -/
 namespace PyxelModel.C06
